@@ -23,6 +23,9 @@ CLAIMS["C10"] = ("DETERM: map-iteration-order dataflow (append sinks must be sor
 CLAIMS["C05"] = ("ATOMIC: check-then-act pair detection with lock-held analysis on single-use stores + ownership of plain reads + deferred-burn dominance + must-reach of the burning handler",
   "Static decision that single-use values are consumed only through the burn primitive, that a failed redemption burns the code, that nonce registrations keep the store's TTL, and that each check-then-act is atomic. The atomicity clause fails on today's tree at three sites, recorded as known findings; a new non-atomic pair is still reported.",
   "Trusts go/ssa; assumes the session backends give no cross-operation isolation (true for all three implementations).")
+CLAIMS["C13"] = ("ownership of version creation/commit calls + dominance order of the two phases + must-pass-through in both transaction closures and the sweep + loop-continuation gate + compensation table agreement with ON DELETE CASCADE edges parsed from the SQL migrations",
+  "Static decision of the two-phase protocol: versions only inside the helper, change log in tx1, commit loop stops at the first failure, compensation iff a commit failed, sweep per transaction id and only for uncommitted, consecutive versions, and every phase-1 table that decides subject existence is removed by the compensation. Exhaustive over the current source.",
+  "Trusts go/ssa, gorm transaction/association semantics and SQL cascade enforcement; crash instants and SQL isolation are not decided.")
 PENDING = {}
 
 def main():
